@@ -10,6 +10,7 @@ import (
 	"time"
 
 	v3 "github.com/projectcalico/api/pkg/apis/projectcalico/v3"
+	corev1 "k8s.io/api/core/v1"
 
 	bapi "github.com/projectcalico/calico/libcalico-go/lib/backend/api"
 	"github.com/projectcalico/calico/libcalico-go/lib/backend/model"
@@ -19,12 +20,26 @@ import (
 	"verif/harness/rt"
 )
 
-func parseCIDROrIP(c string) (*cnet.IP, *cnet.IPNet, error) { return cnet.ParseCIDROrIP(strings.TrimSpace(c)) }
+func parseCIDROrIP(c string) (*cnet.IP, *cnet.IPNet, error) {
+	return cnet.ParseCIDROrIP(strings.TrimSpace(c))
+}
+
+// NamespaceFor builds the namespace object with label team=t<k> (nil for 0).
+func NamespaceFor(k int) *corev1.Namespace {
+	if k <= 0 {
+		return nil
+	}
+	ns := &corev1.Namespace{}
+	ns.Name = fmt.Sprintf("ns%d", k)
+	ns.Labels = map[string]string{"team": fmt.Sprintf("t%d", k)}
+	return ns
+}
 
 // OpResult is what a client operation returned.
 type OpResult struct {
 	Err   error
 	Addrs [][2]int // (block id, ordinal) of returned addresses
+	Nets  []cnet.IPNet
 	Extra string
 }
 
@@ -159,9 +174,50 @@ func (r *Runner) doNew(p map[string]string) {
 		res.Spec.ReservedCIDRs = strings.Split(rv, ";")
 		e.Resv = append(e.Resv, *res)
 	}
+	// optional per-pool attributes: <E|D>:<uses>:n<k>:s<k>:<A|M> ; ...
+	if pa := p["pattrs"]; pa != "" {
+		for i, a := range strings.Split(pa, ";") {
+			f := strings.Split(a, ":")
+			if i >= len(e.Pools) || len(f) != 5 {
+				continue
+			}
+			pl := &e.Pools[i]
+			pl.Spec.Disabled = f[0] == "D"
+			pl.Spec.AllowedUses = nil
+			for _, c := range f[1] {
+				switch c {
+				case 'W':
+					pl.Spec.AllowedUses = append(pl.Spec.AllowedUses, v3.IPPoolAllowedUseWorkload)
+				case 'T':
+					pl.Spec.AllowedUses = append(pl.Spec.AllowedUses, v3.IPPoolAllowedUseTunnel)
+				case 'L':
+					pl.Spec.AllowedUses = append(pl.Spec.AllowedUses, v3.IPPoolAllowedUseLoadBalancer)
+				}
+			}
+			if f[2] != "n0" {
+				pl.Spec.NodeSelector = fmt.Sprintf("zone == 'z%s'", f[2][1:])
+			}
+			if f[3] != "s0" {
+				pl.Spec.NamespaceSelector = fmt.Sprintf("team == 't%s'", f[3][1:])
+			}
+			am := v3.Automatic
+			if f[4] == "M" {
+				am = v3.Manual
+			}
+			pl.Spec.AssignmentMode = &am
+		}
+	}
+	nodeLabels := map[string]map[string]string{}
+	for i, z := range parseInts(p["zones"]) {
+		if i < len(e.Hosts) && z > 0 {
+			nodeLabels[e.Hosts[i]] = map[string]string{"zone": fmt.Sprintf("z%d", z)}
+		}
+	}
+	e.NodeLabels = nodeLabels
 	e.Index()
+	e.Strict = p["strict"] == "1"
 	cfg := &model.IPAMConfig{StrictAffinity: p["strict"] == "1", AutoAllocateBlocks: true, MaxBlocksPerHost: atoi(p["maxblk"]), IPCooldownSeconds: atoi(p["cool"])}
-	e.Setup(cfg, nil)
+	e.Setup(cfg, nodeLabels)
 	r.Env = e
 	r.Sc = NewSched(e.S)
 	r.Sc.Static = IsStaticPath
@@ -224,12 +280,24 @@ func (r *Runner) doBegin(tid int, op string, kv map[string]string) {
 	switch op {
 	case "autoassign":
 		n := atoi(kv["n"])
+		use := v3.IPPoolAllowedUseWorkload
+		if kv["use"] == "T" {
+			use = v3.IPPoolAllowedUseTunnel
+		}
+		ns := NamespaceFor(atoi(kv["ns"]))
+		var req []cnet.IPNet
+		for _, pi := range parseInts(kv["req"]) {
+			if pi >= 0 && pi < len(e.Pools) {
+				req = append(req, cnet.MustParseCIDR(e.Pools[pi].Spec.CIDR))
+			}
+		}
 		fn = func(c bapi.Client) *OpResult {
 			v4, _, err := r.Client(c).AutoAssign(bg, ipam.AutoAssignArgs{Num4: n, HandleID: handle, Hostname: hostName,
-				IntendedUse: v3.IPPoolAllowedUseWorkload, MaxBlocksPerHost: atoi(kv["maxblk"])})
+				IntendedUse: use, MaxBlocksPerHost: atoi(kv["maxblk"]), Namespace: ns, IPv4Pools: req})
 			res := &OpResult{Err: err}
 			if v4 != nil {
 				res.Addrs = r.addrsOf(v4.IPs)
+				res.Nets = v4.IPs
 			}
 			return res
 		}
@@ -273,10 +341,12 @@ func (r *Runner) doBegin(tid int, op string, kv map[string]string) {
 			return &OpResult{Err: err, Extra: fmt.Sprintf("claimed=%d failed=%d", len(claimed), len(failed))}
 		}
 	case "releaseaff":
+		ctx.RequireEmpty = kv["empty"] == "1"
 		fn = func(c bapi.Client) *OpResult {
 			return &OpResult{Err: r.Client(c).ReleaseAffinity(bg, e.Blocks[bid], hostName, kv["empty"] == "1")}
 		}
 	case "relhostaff":
+		ctx.RequireEmpty = kv["empty"] == "1"
 		fn = func(c bapi.Client) *OpResult {
 			return &OpResult{Err: r.Client(c).ReleaseHostAffinities(bg, ipam.AffinityConfig{AffinityType: ipam.AffinityTypeHost, Host: hostName}, kv["empty"] == "1")}
 		}
